@@ -67,7 +67,7 @@ func GenDur(t *rapid.T, max time.Duration, label string) time.Duration {
 func GenTiming(t *rapid.T, k Knobs) (time.Duration, time.Duration) {
 	hs := hChoices
 	if k.LongH {
-		hs = append(append([]time.Duration(nil), hChoices...), 2*time.Second, 2500*time.Millisecond, 3*time.Second)
+		hs = append(append([]time.Duration(nil), hChoices...), 2*time.Second, 2500*time.Millisecond, 3*time.Second, 5*time.Second)
 	}
 	h := rapid.SampledFrom(hs).Draw(t, "H")
 	var ttl time.Duration
@@ -150,7 +150,7 @@ func GenPlan(t *rapid.T, profile string, k Knobs) *Plan {
 		}
 		if k.Health && rapid.IntRange(0, 2).Draw(t, "health_on") > 0 {
 			in.HasHealth = true
-			in.MCF = rapid.SampledFrom([]int{0, 1, 2, 3, 5}).Draw(t, "mcf")
+			in.MCF = rapid.SampledFrom([]int{0, 1, 2, 3, 5, 1 << 31, 1<<32 + 1}).Draw(t, "mcf")
 			in.Health = GenHealthScript(t, in.MCF)
 		}
 		if k.HealthyChecks && !in.HasHealth && rapid.IntRange(0, 1).Draw(t, "healthy_checker") == 0 {
@@ -401,8 +401,8 @@ func GenStopAction(t *rapid.T, at time.Duration, inst int, h time.Duration) Acti
 // threshold-1, threshold, threshold+1.
 func GenHealthScript(t *rapid.T, mcf int) []int {
 	th := mcf
-	if th <= 0 {
-		th = 3
+	if th <= 0 || th > 16 {
+		th = 3 // (thresholds beyond any script: runs as for 3; the threshold itself is never reached)
 	}
 	var s []int
 	blocks := rapid.IntRange(1, 6).Draw(t, "hblocks")
